@@ -131,13 +131,19 @@ func (srv *Session) consumeSingleCommand(ctx context.Context, reader *buffer.Rea
 	}
 
 	verifYield("cmd.before-admission")
+
+	// NOTE: we increase the wait group by one in order to make sure that idle
+	// connections are not blocking a close. The command is admitted under the
+	// same lock as the decision to close: a command is either admitted before
+	// the server is closing, in which case close waits for it, or not at all.
+	srv.mu.Lock()
 	if srv.closing.Load() {
+		srv.mu.Unlock()
 		return nil
 	}
 
-	// NOTE: we increase the wait group by one in order to make sure that idle
-	// connections are not blocking a close.
 	srv.wg.Add(1)
+	srv.mu.Unlock()
 	verifYield("cmd.admitted")
 	srv.logger.Debug("<- incoming command", slog.Int("length", length), slog.String("type", t.String()))
 	err = srv.handleCommand(ctx, conn, t, reader, writer)
